@@ -24,6 +24,7 @@ import (
 
 type EnvSpec struct {
 	Param string   `json:"param,omitempty"` // replace the expression by this (new) parameter
+	Var   string   `json:"var,omitempty"`   // an assignment to this expression is an assignment to this local variable
 	Type  string   `json:"type,omitempty"`  // class of the parameter / result: u64 i64 time bool
 	Fn    string   `json:"fn,omitempty"`    // replace the call by a call of this generated definition
 	Pre   []string `json:"pre,omitempty"`   // "name:class" parameters passed before the Go arguments
@@ -40,7 +41,8 @@ type Target struct {
 	Outputs []string           `json:"outputs,omitempty"`
 	Free    []string           `json:"free,omitempty"` // fragment: "name:class" of variables live on entry
 	Env     map[string]EnvSpec `json:"env,omitempty"`
-	Skip    []string           `json:"skip,omitempty"` // expression statements starting with one of these are ignored (logging)
+	Skip    []string           `json:"skip,omitempty"` // statements whose text starts with one of these are ignored (logging, hashing, error plumbing)
+	Option  bool               `json:"option,omitempty"` // fragment: a bare return inside it yields None, falling through yields Some outputs
 	Doc     string             `json:"doc,omitempty"`
 }
 
@@ -84,6 +86,23 @@ func (g *gen) class(typ ast.Expr) string {
 	}
 	fail(g.fset.Position(typ.Pos()), "type %s is not in the configured type table", s)
 	return ""
+}
+
+func (g *gen) classOpt(typ ast.Expr) (string, bool) {
+	c, ok := g.cfg.Types[g.text(typ)]
+	return c, ok
+}
+
+// lhsName: the local variable an assignment target stands for (an identifier, or an expression
+// mapped to a variable by the target's env)
+func (g *gen) lhsName(e ast.Expr) (string, bool) {
+	if id, ok := e.(*ast.Ident); ok {
+		return id.Name, true
+	}
+	if spec, ok := g.t.Env[g.text(e)]; ok && spec.Var != "" {
+		return spec.Var, true
+	}
+	return "", false
 }
 
 func (g *gen) addEnv(name, class string) {
@@ -455,18 +474,31 @@ func (g *gen) stmts(ss []ast.Stmt, depth int, final func() string) string {
 	}
 	s, rest := ss[0], ss[1:]
 	pos := g.fset.Position(s.Pos())
+	stxt := g.text(s)
+	for _, p := range g.t.Skip {
+		if strings.HasPrefix(stxt, p) {
+			return g.stmts(rest, depth, final)
+		}
+	}
 	switch x := s.(type) {
 	case *ast.ExprStmt:
-		txt := g.text(x.X)
-		for _, p := range g.t.Skip {
-			if strings.HasPrefix(txt, p) {
-				return g.stmts(rest, depth, final)
-			}
-		}
-		fail(pos, "expression statement %s not supported", txt)
+		fail(pos, "expression statement %s not supported", stxt)
 	case *ast.ReturnStmt:
+		if len(x.Results) == 0 && g.t.From != "" && g.t.Option {
+			return "None"
+		}
 		if len(x.Results) != 1 {
 			fail(pos, "return with %d results not supported", len(x.Results))
+		}
+		if g.retType == "error" {
+			// a function returning error is translated to a bool: true = nil (accepted)
+			if id, ok := x.Results[0].(*ast.Ident); ok && id.Name == "nil" {
+				return "true"
+			}
+			if _, ok := x.Results[0].(*ast.CallExpr); ok {
+				return "false"
+			}
+			fail(pos, "error result %s not supported", g.text(x.Results[0]))
 		}
 		e, c := g.expr(x.Results[0])
 		if c == "untyped" {
@@ -494,11 +526,17 @@ func (g *gen) stmts(ss []ast.Stmt, depth int, final func() string) string {
 		if len(x.Lhs) != 1 || len(x.Rhs) != 1 {
 			fail(pos, "multiple assignment not supported")
 		}
-		id, ok := x.Lhs[0].(*ast.Ident)
+		lname, ok := g.lhsName(x.Lhs[0])
 		if !ok {
 			fail(pos, "assignment to %s not supported", g.text(x.Lhs[0]))
 		}
+		id := &ast.Ident{Name: lname}
 		e, c := g.expr(x.Rhs[0])
+		if _, isIdent := x.Lhs[0].(*ast.Ident); !isIdent && x.Tok == token.ASSIGN {
+			if _, known := g.vars[lname]; !known {
+				g.vars[lname] = c // first assignment to a mapped target declares the variable
+			}
+		}
 		switch x.Tok {
 		case token.DEFINE:
 			if c == "untyped" {
@@ -582,11 +620,11 @@ func (g *gen) stmts(ss []ast.Stmt, depth int, final func() string) string {
 	return ""
 }
 
-func assigns(s ast.Stmt, v string) bool {
+func (g *gen) assigns(s ast.Stmt, v string) bool {
 	switch x := s.(type) {
 	case *ast.AssignStmt:
 		for _, l := range x.Lhs {
-			if id, ok := l.(*ast.Ident); ok && id.Name == v {
+			if n, ok := g.lhsName(l); ok && n == v {
 				return true
 			}
 		}
@@ -596,12 +634,52 @@ func assigns(s ast.Stmt, v string) bool {
 		}
 	case *ast.IfStmt:
 		for _, b := range x.Body.List {
-			if assigns(b, v) {
+			if g.assigns(b, v) {
 				return true
 			}
 		}
 	}
 	return false
+}
+
+// findFragment: the innermost statement list (function body, loop body, branch) that contains a
+// statement assigning [from] directly
+func (g *gen) findFragment(list []ast.Stmt, from string) []ast.Stmt {
+	for _, s := range list {
+		if as, ok := s.(*ast.AssignStmt); ok {
+			for _, l := range as.Lhs {
+				if n, ok := g.lhsName(l); ok && n == from {
+					return list
+				}
+			}
+		}
+	}
+	for _, s := range list {
+		var inner [][]ast.Stmt
+		switch x := s.(type) {
+		case *ast.ForStmt:
+			inner = append(inner, x.Body.List)
+		case *ast.RangeStmt:
+			inner = append(inner, x.Body.List)
+		case *ast.BlockStmt:
+			inner = append(inner, x.List)
+		case *ast.IfStmt:
+			inner = append(inner, x.Body.List)
+			if b, ok := x.Else.(*ast.BlockStmt); ok {
+				inner = append(inner, b.List)
+			}
+		case *ast.GoStmt:
+			if fl, ok := x.Call.Fun.(*ast.FuncLit); ok {
+				inner = append(inner, fl.Body.List)
+			}
+		}
+		for _, l := range inner {
+			if r := g.findFragment(l, from); r != nil {
+				return r
+			}
+		}
+	}
+	return nil
 }
 
 func main() {
@@ -704,7 +782,10 @@ func main() {
 		body := fd.Body.List
 		if t.From == "" {
 			for _, p := range fd.Type.Params.List {
-				c := g.class(p.Type)
+				c, ok := g.classOpt(p.Type)
+				if !ok {
+					continue // usable only through the env mappings of the target
+				}
 				for _, n := range p.Names {
 					if n.Name == "_" {
 						continue
@@ -718,12 +799,15 @@ func main() {
 			}
 			g.retType = g.class(fd.Type.Results.List[0].Type)
 		} else {
+			if fb := g.findFragment(body, t.From); fb != nil {
+				body = fb
+			}
 			lo, hi := -1, -1
 			for i, s := range body {
-				if lo < 0 && assigns(s, t.From) {
+				if lo < 0 && g.assigns(s, t.From) {
 					lo = i
 				}
-				if lo >= 0 && assigns(s, t.To) {
+				if lo >= 0 && g.assigns(s, t.To) {
 					hi = i
 				}
 			}
@@ -751,10 +835,14 @@ func main() {
 						fail(fset.Position(fd.Pos()), "output %s is not defined by the fragment", o)
 					}
 				}
+				out := "(" + strings.Join(t.Outputs, ", ") + ")"
 				if len(t.Outputs) == 1 {
-					return t.Outputs[0]
+					out = t.Outputs[0]
 				}
-				return "(" + strings.Join(t.Outputs, ", ") + ")"
+				if t.Option {
+					return "Some " + out
+				}
+				return out
 			})
 		}
 		var ps []param
